@@ -1038,7 +1038,46 @@ class ScriptGen:
             if f.required: self.h.append('K:%d' % f.id)
         self.h.append('Te')
         self.m.append('T:' + (';'.join(madds) if madds else '-'))
+        if rng.random() < getattr(self, 'reserve_bias', 0.0): self.reserve_rewrite()
         return self.new()
+
+    def reserve_rewrite(self):
+        """the table frame that was just closed (its Ts .. Te in self.h): start_table with a count SMALLER than the ids used (0, 1 or a random
+        smaller one) and flatcc_builder_reserve_table (op Tr) before every add whose id is not below what is reserved so far, plus reserve calls at
+        random points (before / between / after the adds) with counts below, equal to and above the current one, 0 and large. No effect on the
+        layout (flatcc_builder.h), so the model script is unchanged; plain_script() gives the script without these calls."""
+        rng, h = self.rng, self.h
+        depth, k = 0, len(h) - 1
+        while k >= 0:                                   # the matching Ts
+            op = h[k].split(':')[0]
+            if op == 'Te': depth += 1
+            elif op == 'Ts':
+                depth -= 1
+                if depth == 0: break
+            k -= 1
+        if k < 0: return
+        full = int(h[k].split(':')[1])
+        start = rng.choice([0, 1, rng.randrange(0, full + 1)])
+        out, reserved, depth = ['Ts:%d' % start], start, 0
+
+        def extra():
+            c = rng.choice([0, max(reserved - 1, 0), reserved, reserved + 3, rng.choice([500, 2000])])
+            out.append('Tr:%d' % c)
+            return max(reserved, c)
+        for op in h[k + 1:]:
+            f = op.split(':')
+            if f[0] == 'Ts': depth += 1
+            if depth == 0 and f[0] in ('Ti', 'To', 'Tu', 'Tv', 'K'):
+                fid = int(f[2] if f[0] == 'Ti' else f[1])
+                if rng.random() < 0.25: reserved = extra()
+                if fid >= reserved:
+                    reserved = fid + 1 + rng.choice([0, 0, 1, 5]); out.append('Tr:%d' % reserved)
+            if depth == 0 and f[0] == 'Te' and rng.random() < 0.3: reserved = extra()
+            out.append(op)
+            if f[0] == 'Te' and depth > 0: depth -= 1
+        h[k:] = out
+        self.has_reserve = True
+        self.stat('reserve_table')
 
     def nested(self, n):
         """nested buffer node: B .. root .. E  (style se) or create_buffer with is_nested (style c, struct roots only)"""
@@ -1121,6 +1160,22 @@ def harness_line(g):
     verb = 'buildd ' if getattr(g, 'default_emitter', False) else 'buildm ' if getattr(g, 'moving_alloc', False) else 'build '
     pre = getattr(g, 'abandon', None)
     return verb + (' '.join(pre) + ' Z ' if pre else '') + ' '.join(g.h)
+
+
+def plain_script(line):
+    """the harness line without reserve_table calls (op Tr), every start_table count raised to cover the ids its frame uses"""
+    toks = line.split(' ')
+    out, stack = [], []
+    for t in toks:
+        f = t.split(':')
+        if f[0] == 'Tr': continue
+        if f[0] == 'Ts': stack.append([len(out), int(f[1])])
+        elif f[0] in ('Ti', 'To', 'Tu', 'Tv', 'K') and stack:
+            fid = int(f[2] if f[0] == 'Ti' else f[1]); stack[-1][1] = max(stack[-1][1], fid + 1)
+        elif f[0] == 'Te' and stack:
+            i, c = stack.pop(); out[i] = 'Ts:%d' % c
+        out.append(t)
+    return ' '.join(out)
 
 
 def abandon_ops(rng):
